@@ -30,8 +30,8 @@ Definition run_c12 (c : c12case) : list (N * N * N) :=
   end.
 Definition c12_run (cs : list c12case) : list (N * N * N) := flat_map run_c12 cs.
 
-(* the blockstore clauses of C12 on C13's traces: as c13_step_ok, but a correct leader must not be flagged
-   even when a validated shred carries a flipped (unsigned) data/coding tag *)
+(* the blockstore clauses of C12 on C13's traces: equivocation revealed by the delivered shreds is reported, and a
+   correct leader must not be flagged even when a validated shred carries a flipped (unsigned) data/coding tag *)
 Open Scope N_scope.
 Definition c12_block_step_ok (slot : N) (ct : content) (hist : list bstep) (st : bstep) : bool :=
   let upto := hist ++ [st] in
@@ -39,8 +39,11 @@ Definition c12_block_step_ok (slot : N) (ct : content) (hist : list bstep) (st :
   let shs := dissem_shreds upto in
   let repaired := existsb (fun s => match bs_op' s with BRepair _ _ _ => true | _ => false end) upto in
   let own := match own_slices upto with [] => false | _ => true end in
-  repaired || own || reveals_equivocation shs
-  || match honest_block slot ct shs with
+  repaired || own
+  || (* two validly signed commitments for one slice (or contradictory last markers) are reported, never silently accepted *)
+     (if reveals_equivocation shs then existsb is_invalid_ev evs else false)
+  || negb (reveals_equivocation shs) &&
+     match honest_block slot ct shs with
      | Some _ => negb (existsb is_invalid_ev evs)
      | None =>
        existsb (fun r => match content_of ct r with DecErr => true | DecOk _ ok => negb ok end) (map b_root shs)
